@@ -81,7 +81,9 @@ UnpackPack  == /\ Over(Unpack(s), {UA, UC, UG, UT})
                /\ Pack(Unpack(s)) = s
                /\ ITo2Bit(<<>>, IFrom2Bit(<<>>, s)) = Res(s)
 
-NtoiIton == /\ \A i \in 0..3 : Ntoi(Iton(i)) = i /\ NtoiTable[ItonSwitch(i)] = i
+\* independent of s: evaluated once, in the initial state
+NtoiIton == (s = <<>>) =>
+            /\ \A i \in 0..3 : Ntoi(Iton(i)) = i /\ NtoiTable[ItonSwitch(i)] = i
             /\ \A b \in Bases : Iton(Ntoi(b)) = Upper(<<b>>)[1]
             /\ \A b \in Byte : NtoiTable[b] = Ntoi(b) /\ (b \notin Bases => Ntoi(b) = -1)
             /\ \A i \in -2..6 : ItonSwitch(i) = Iton(i)
